@@ -17,6 +17,7 @@ import r_pe as PEV
 T.t_hdr = PEV.t_hdr
 T.t_width = PEV.t_width
 T.t_tname = PEV.t_tname
+T.t_flen = PEV.t_flen
 IO.t_eof = PEV.t_eof
 IO.h_toio = PEV.h_toio
 IO.h_fromio = PEV.h_fromio
@@ -30,6 +31,7 @@ def _t_bits(F, R):
     evaluated over their complete finite domains against the specification's bit layouts."""
     PE2.t_bits_connect(F, R)
     PE2.t_bits_subopts(F, R)
+    PE2.t_bits_subenc(F, R)
     PE2.h_connack_flags(F, R)
 
 
@@ -91,13 +93,13 @@ def reg(pid, level, rules, explanation):
 
 reg("C01", "other",
     [T.t_bij, P.t_prop3, L.l_eq, B.l_cover, P.l_propdec, D.h_dispatch3, T.t_varint_readers, PL.s_persist, PL.h_total,
-     B.t_bits, C.h_payfmt, L.t_ctl, P3.h_shortform, TR.l_trace, P3.t_prims, T.t_proto, P.h_bytevals],
+     B.t_bits, C.h_payfmt, L.t_ctl, P3.h_shortform, TR.l_trace, P3.t_prims, T.t_proto, P.h_bytevals, T.t_varint_writer],
     "NOT decided: equality of the decoded value with the original over the unbounded value space (a runtime quantity). Decided: structural necessary conditions of a round trip, each exact for what it compares: "
     "T-bij (every wire-code enum's `as u8` discriminant table and its from_u8 table, evaluated for all 256 bytes, are inverse "
     "bijections), T-prop3 (decode / encode / encode_len of every v5 property set handle the same ids wired to the same field), L-eq "
     "(encode writes what encode_len declares, for every field combination), L-cover (every length-bearing field is written, "
     "conditional only on itself), L-propdec (bytes read per property == accounted == encode_len term), H-dispatch3 (the three "
-    "front-ends run the same body decoders), V-reader/P-header/S-persist/P-complete/P-body (the poll front-end decodes the same header, "
+    "front-ends run the same body decoders), V-writer (the length writer emits the variable byte integer the readers invert, for every value below 2^28), V-reader/P-header/S-persist/P-complete/P-body (the poll front-end decodes the same header, "
     "hands over the raw body and reports 1+len-of-len+remaining), T-bits / T-ctl (flag bytes and control bytes written by the encoders "
     "are the ones the decoders read back, over their complete domains), H-payfmt (the payload check rejects only flag=Some(true) with "
     "invalid UTF-8), H-shortform (the v5 short forms the encoder emits are the ones the decoders accept), L-trace (encoder and decoder of "
@@ -129,14 +131,14 @@ reg("C03", "other",
 
 reg("C04", "other",
     [T.t_codes, T.t_hdr, P.t_props, P.h_proplen, P.h_dup, P.h_bytevals, P.l_propdec, PL.h_exactfill, B.t_bits, B.h_checked_sub,
-     B.l_consume, C.h_ctor, C.h_utf8, T.t_varint_readers, P3.h_shortform, P3.t_prims, C.h_accessors],
+     B.l_consume, C.h_ctor, C.h_utf8, T.t_varint_readers, P3.h_shortform, P3.t_prims, C.h_accessors, T.t_width],
     "NOT decided: language equality between the strict decoder's accepted set and the MQTT grammar, nor the conjunction of the "
     "clauses below into it. Decided exactly against independent OASIS tables (spec_mqtt.py): header nibble/flag table for all 256 "
     "control bytes (T-hdr), accepted domain of every code table (T-codes), permitted property set per packet and its rejecting default "
     "arm (T-props), duplicate rejection before every store (H-dup), 0/1 byte properties (H-bytevals), exact property length test "
     "(H-proplen), exact fill of the frame and zero remaining length for body-less packets in the poll decoder (P-complete/P-body), "
     "CONNECT flag / subscription-option / CONNACK-flag masks and validators over all 256 bytes (T-bits), checked_sub on every decrement, "
-    "validated constructors for pid/topic/filter/var-int (H-ctor), UTF-8 validation before string construction (H-utf8), the three v5 "
+    "validated constructors for pid/topic/filter/var-int (H-ctor) with the variable byte integer's bound at exactly 2^28 (T-width), UTF-8 validation before string construction (H-utf8), the three v5 "
     "short forms and no others (H-shortform). The library's deliberate leniencies are listed in DESIGN.md section 5.")
 
 reg("C05", "other",
@@ -150,23 +152,27 @@ reg("C05", "other",
     "bytes filled, success reports 1 + 1 + var_idx (+ remaining length).")
 
 reg("C06", "other",
-    [D.h_dispatch3, D.h_hdr1, D.h_block, PL.h_exactfill, T.t_varint_readers],
+    [D.h_dispatch3, D.h_hdr1, D.h_block, PL.h_exactfill, T.t_varint_readers, IO.h_noswallow, IO.s_readers],
     "Decided exactly for the dispatch layer, the only place the three front-ends differ: per packet type the async decoder, "
     "block_decode and build_empty_packet, evaluated on an abstract header, run the same body decoder with the same arguments or build "
     "the same value (H-dispatch3); all obtain the header through the same Header::new_with and decode_raw_header raises nothing of its "
     "own (H-hdr1); the two var-int readers have the same transfer function (V-reader, P-header); Packet::decode is "
     "block_on(decode_async) with Ok->Some, EOF->None, other errors unchanged (H-block, every error variant); poll substitutes only "
-    "InvalidRemainingLength (P-body). Not decided: determinism of the shared decoder code itself (it has no state; S-pure covers the "
+    "InvalidRemainingLength (P-body); no body decoder turns an end of input it caught into a different error or a value, which the poll "
+    "front-end (bounded body) and the stream front-ends (which read on) would then report differently (H-noswallow), and the transport "
+    "is only read with read_exact / poll_read, so that the async front-end does not depend on how the bytes are chunked (S-readers). Not decided: determinism of the shared decoder code itself (it has no state; S-pure covers the "
     "encode side only).")
 
 reg("C07", "other",
-    [IO.s_readers, IO.s_ioerr, IO.t_eof, IO.h_noswallow, D.h_block, B.l_consume, PL.h_pending, PL.h_total, P3.t_prims, P.l_propdec],
+    [IO.s_readers, IO.s_ioerr, IO.t_eof, IO.h_noswallow, D.h_block, B.l_consume, PL.h_pending, PL.h_total, P3.t_prims, P.l_propdec, P3.h_shortform],
     "Decided per site: every transport call is read_exact (operand read completely before use) or poll_read in poll "
     "(S-readers); every io::Result is propagated by `?` or a kind-preserving map_err (S-ioerr); is_eof <=> IoError(UnexpectedEof) "
     "for both error types and zero-length reads produce exactly that (T-eof, P-header/P-body); no map_err closure relabels an I/O "
     "error, no .ok()/unwrap_or on a read result, and every match / if-let / let-else on a Result that can carry an I/O error "
     "propagates it in every arm that can see an Err (H-noswallow); Packet::decode maps exactly the EOF class to Ok(None) (H-block); "
-    "decoders consume exactly the frame's remaining length, so trailing bytes are never touched (L-consume). Not decided: that no "
+    "decoders consume exactly the frame's remaining length, so trailing bytes are never touched (L-consume), the v5 acknowledgement "
+    "family included: each of its forms reads every byte of the declared length, so the encoding minus its last byte is not a packet "
+    "(H-shortform); an arm that catches an end of input never replaces it by another error (H-noswallow). Not decided: that no "
     "validation fires early on a strict prefix of a valid encoding (follows from read-before-use but is not derived).")
 
 reg("C08", "other",
@@ -180,12 +186,13 @@ reg("C08", "other",
     "goes on to the property block otherwise (H-shortform); total_len / header_len / remaining_len are mutually consistent (T-width).")
 
 reg("C09", "other",
-    [IO.h_async1, IO.h_asref, IO.s_writers, IO.s_pure, L.l_hdr, L.l_fixed, L.l_eq, P3.t_prims],
+    [IO.h_async1, IO.h_asref, IO.s_writers, IO.s_pure, L.l_hdr, L.l_fixed, L.l_eq, P3.t_prims, T.t_varint_writer],
     "Decided for the crate's own code (tokio's write_all semantics under partial writes / Pending are trusted): encode_async is "
     "encode()? followed by exactly one write_all(data.as_ref()) on the same bytes with no branching (H-async1); VarBytes::as_ref "
     "returns the whole container for every variant (H-asref); only write_all is ever called on a sink and no buffering adapter sits "
     "between an encoder and the sink unless its flush result is propagated (S-writers); packet bytes = control byte + "
-    "var-int(encode_len) + what body.encode writes, fast paths only per the evaluated per-variant table (L-hdr, L-fixed/T-ctl); the "
+    "var-int(encode_len) + what body.encode writes, fast paths only per the evaluated per-variant table (L-hdr, L-fixed/T-ctl), the var-int being "
+    "the variable byte integer of that length for every value below 2^28 (V-writer, whole-function); the "
     "encode closure reads no static/thread-local/interior-mutable state and calls nothing environment dependent (S-pure).")
 
 reg("C10", "other",
@@ -193,38 +200,41 @@ reg("C10", "other",
     "Static analysis cannot run an independent decoder; decided instead: every constant the encoder puts on the wire equals the "
     "independently typed OASIS tables (spec_mqtt.py): control bytes incl. PUBLISH flag bits for all 12 flag combinations (T-ctl), all "
     "138 wire-code enum discriminants (T-rc), property ids, their wire types and the id-then-value order, length prefix = sum of "
-    "written items (T-propid), CONNECT flag and subscription-option bit layouts (T-bits), the var-int writer's transfer function "
+    "written items (T-propid), CONNECT flag and subscription-option bit layouts (T-bits), the var-int writer evaluated as a whole function, piece by piece "
     "(V-writer), protocol name/level pairs (T-proto), header assembly (L-hdr). L-trace decides that the encoder's item order is the decoder's (not "
     "that either is the specification's); big-endian integers rest on to_be_bytes being the only integer serialiser reached (checked by L's "
     "primitive summaries).")
 
 reg("C11", "other",
     [L.l_eq, B.l_cover, T.t_bij, PN.s_panic_encode, T.t_width, C.h_ctor, P.l_propdec, P.h_proplen, B.t_bits, L.t_ctl, P3.h_shortform,
-     TR.l_trace, P3.t_prims, T.t_proto, P.t_prop3, P.h_bytevals, IO.h_async1, IO.s_writers],
+     TR.l_trace, P3.t_prims, T.t_proto, P.t_prop3, P.h_bytevals, IO.h_async1, IO.s_writers, T.t_varint_writer],
     "NOT decided: the runtime round trip over accepted byte strings. Decided (necessary): the encoder is length-exact on every "
     "value a decoder can construct, not only canonical ones (L-eq quantifies over all atom assignments); every length-bearing "
     "field is written whenever present, depending only on itself (L-cover); every enum value a from_u8 table returns is written "
-    "back as the byte it came from (T-bij); every flag/bit a decoder accepts is written back (T-bits, T-ctl); the short forms agree "
+    "back as the byte it came from (T-bij); every flag/bit a decoder accepts is written back (T-bits, T-ctl); every length is written as the variable byte integer the readers invert (V-writer); the short forms agree "
     "(H-shortform); no panic site in the encode closure other than the known oversize expect (S-panic-enc; F5 is unreachable for "
     "decoder-built packets); decoders build validated types only through their constructors (H-ctor).")
 
 reg("C12", "proof",
-    [C.h_priv, C.h_ctor, C.h_utf8, C.h_payfmt, C.h_accessors, T.t_width],
+    [C.h_priv, C.h_ctor, C.h_utf8, C.h_payfmt, C.h_accessors, T.t_width, T.t_flen],
     "All obligations exact: private fields and no way around the validating constructors (H-priv); Pid/TopicName/TopicFilter/"
     "VarByteInt are constructed only inside their constructors, which evaluated on abstract inputs reject exactly the invalid values "
     "and store their argument (H-ctor); read_string validates the very buffer it turns into a String and no other unchecked/lossy "
     "construction exists (H-utf8); a payload flagged UTF-8 is validated on the buffer that becomes the payload, over all flag/validity "
     "combinations (H-payfmt); VarByteInt bound is 2^28 (T-width). The clause 'shared-subscription accessors work' is decided only "
     "structurally (H-accessors: they use nothing but the validator's index, the prefix matcher compares 7 characters and advances by "
-    "len_utf8); that the index is the right '/' is C16 territory and not decided.")
+    "len_utf8; T-flen: no text longer than 65,535 bytes is accepted, so the cached u16 offset cannot wrap); that the index is the right "
+    "'/' is C16 territory and not decided.")
 
 reg("C13", "proof",
-    [T.t_proto, C.s_gate, C.h_protoread, T.t_hdr],
+    [T.t_proto, C.s_gate, C.h_protoread, T.t_hdr, D.h_block, D.h_dispatch3],
     "All obligations exact: Protocol::new matches its raw arguments against exactly (MQIsdp,3) (MQTT,4) (MQTT,5), the default arm "
     "only returns InvalidProtocol(name, level) / InvalidString, to_pair is the inverse (T-proto); Protocol::decode_async reads "
     "exactly name then level (H-protoread); both decode_with_protocol start with the version gate returning "
     "UnexpectedProtocol(protocol parameter) before any read, accepted sets {V310,V311} / {V500} (S-gate); Connect::decode_async is "
-    "Protocol::decode_async then decode_with_protocol with nothing in between (H-compose).")
+    "Protocol::decode_async then decode_with_protocol with nothing in between (H-compose); the packet front-ends hand the caller's reader "
+    "to Connect::decode_async without reading any body byte first (H-dispatch3) and the blocking front-end is the async one with only end of "
+    "input mapped to Ok(None), so the refusal is reported as soon as the level byte is there (H-block).")
 
 reg("C14", "other",
     [IO.s_ioerr, IO.s_readers, IO.s_writers, IO.h_fromio, IO.h_toio, IO.h_noswallow, IO.t_eof, IO.h_async1, PL.h_pending, PL.h_total],
@@ -237,29 +247,33 @@ reg("C14", "other",
     "unchanged and EOF as UnexpectedEof (P-header/P-body).")
 
 reg("C15", "other",
-    [T.t_width, T.t_varint_writer, T.t_varint_readers, C.h_ctor, PL.h_total],
+    [T.t_width, T.t_varint_writer, T.t_varint_readers, C.h_ctor, PL.h_total, D.h_block, D.h_hdr1],
     "The width helpers touch their argument only through comparisons with constants, so T-width decides their laws for all 2^28 "
     "values from the reconstructed piecewise tables (var_int_len, total_len, header_len, remaining_len, VarByteInt bound, cross law). "
     "V-reader / P-header decide that the standalone reader and the poll header state machine have the same transfer function (mask, "
     "step, continuation, 4-byte cap, error) equal to the spec; V-writer the writer's; P-complete that the poll decoder's reported total "
-    "uses the number of length bytes consumed. NOT decided: decode(write(n)) = n as an arithmetic identity (follows from the two "
+    "uses the number of length bytes consumed; every front-end reaches the reader unconditionally: the blocking decoders are the async "
+    "ones with only end of input mapped to Ok(None), and all obtain the header through decode_raw_header / Header::new_with (H-block, H-hdr1). NOT decided: decode(write(n)) = n as an arithmetic identity (follows from the two "
     "transfer functions by the textbook argument; stated, not mechanised).")
 
 reg("C17", "other",
-    [C.h_fields, C.h_accessors, C.h_ctor],
+    [C.h_fields, C.h_accessors, C.h_ctor, T.t_flen, PN.s_panic_validator],
     "Sentence 2 decided exactly: eq / cmp / partial_cmp / hash of TopicFilter are hand-written and, evaluated on abstract filters with "
     "different cached indices, are exactly the text's own eq / cmp / hash; Display/Deref read only the text (H-fields); the constructor "
     "stores its argument unchanged (H-ctor). Sentence 1 partly decided (necessary): accessors slice inner[7..sep] / inner[sep+1..] only "
     "when sep > 0, 7 == len(\"$share/\"), sep is written only from is_invalid's result, the validator's prefix matcher compares all 7 "
-    "characters and advances its byte index by len_utf8 (H-accessors). NOT decided: that the cached index is the '/' that ends the "
+    "characters and advances its byte index by len_utf8 (H-accessors); the validator refuses every text longer than 65,535 bytes, so the "
+    "u16 byte offset it caches cannot wrap (T-flen, evaluated on a symbolic byte length), and no arithmetic site in it can overflow or "
+    "panic (S-panic restricted to the validator). NOT decided: that the cached index is the '/' that ends the "
     "share name.")
 
 reg("C18", "proof",
-    [T.t_tname, C.h_tn, C.h_ctor, C.h_priv, C.h_utf8, RA.h_raise],
+    [T.t_tname, C.h_tn, C.h_ctor, C.h_priv, C.h_utf8, RA.h_raise, P.h_topicvals],
     "All obligations exact: TopicName::is_invalid is `byte length > 65535 || contains one of {'+','#','\\0'}` (T-tname, evaluated); "
     "try_from returns InvalidTopicName(value) iff is_invalid(value) else stores the same string (H-ctor, evaluated); it is the only "
     "construction site, fields are private (H-priv); Deref/Display return the text, is_shared/is_sys are starts_with(\"$share/\") / "
-    "starts_with(\"$SYS/\") (H-tn-read); five decode paths go through try_from (H-tn-paths).")
+    "starts_with(\"$SYS/\") (H-tn-read); five decode paths go through try_from (H-tn-paths); a Response Topic is accepted exactly when "
+    "the constructor accepts the string read -- no further condition on the value -- and a refusal becomes InvalidResponseTopic (H-topicvals).")
 
 reg("C20", "other",
     [RA.h_raise, RA.h_order, P.t_props, P.h_proplen, P.h_dup, P.h_bytevals, D.h_dispatch3, PL.h_exactfill, D.h_block,
